@@ -1,8 +1,12 @@
 #!/bin/bash
-# usage: run_seed.sh <seed id> <prop> [<prop>...]  -- apply seeded patch to /repo, run quick checks, undo
+# usage: run_seed.sh <seed id> <prop> [<prop>...]  -- apply seeded patch to /repo, run quick checks, undo.
+# evidence/ and replays/ are saved and restored so that committed evidence always comes from the unchanged tree.
 ID=$1; shift
+SAVE=$(mktemp -d /verif/.work/save.XXXX)
+cp -r /verif/evidence $SAVE/evidence; cp -r /verif/replays $SAVE/replays 2>/dev/null
 cd /repo && git apply /verif/seeded/$ID/patch.diff || { echo "patch does not apply"; exit 2; }
 cd /verif
-for p in "$@"; do ./check $p quick 2>&1 | grep -E "VIOLATION|UNDECIDED|KNOWN|quick:" | cut -c1-260; echo "  -> exit ${PIPESTATUS[0]}"; done
+for p in "$@"; do ./check $p quick 2>&1 | grep -E "VIOLATION|UNDECIDED|KNOWN|quick:|FAILED-OBL" | cut -c1-260; echo "  -> exit ${PIPESTATUS[0]}"; done
 git -C /repo checkout -- .
 git -C /repo status --short | head -3
+rm -rf /verif/evidence /verif/replays; mv $SAVE/evidence /verif/evidence; [ -d $SAVE/replays ] && mv $SAVE/replays /verif/replays; rm -rf $SAVE
